@@ -500,6 +500,31 @@ impl SimDisk {
                 compared += 1;
             }
         }
+        // snapshot(request_index): built at the stored commit index, with that index's term and the stored
+        // configuration; its index is never below the requested one
+        let commit = m.hs.commit;
+        if commit >= m.snap_index && commit <= li && (commit >= fi || commit == m.snap_index) {
+            let mut p = probe ^ 0x5a5a;
+            for req in [0u64, commit, commit + 1 + crate::prng::splitmix64(&mut p) % 3] {
+                match mem.snapshot(req, 0) {
+                    Ok(s) => {
+                        let md = s.get_metadata();
+                        let want_term = m.term(commit).ok();
+                        if md.index != commit.max(req) {
+                            return Err(format!("snapshot({req}) has index {}, expected {}", md.index, commit.max(req)));
+                        }
+                        if Some(md.term) != want_term {
+                            return Err(format!("snapshot({req}) has term {}, the commit index {commit} has term {:?}", md.term, want_term));
+                        }
+                        if !raft_proto::conf_state_eq(md.get_conf_state(), &m.cs) {
+                            return Err(format!("snapshot({req}) carries configuration {:?}, stored {:?}", md.get_conf_state(), m.cs));
+                        }
+                        compared += 1;
+                    }
+                    Err(e) => return Err(format!("snapshot({req}) failed: {e:?}")),
+                }
+            }
+        }
         Ok(compared)
     }
 }
